@@ -42,6 +42,35 @@ fn check(ctx: &Ctx, id: &str, ops: &[Op], masks: &[u8]) {
     }
 }
 
+/// Raw (possibly malformed) byte strings: an opcode byte counts unless it is one of the (up to) 8 bytes after a Push opcode; never a panic.
+fn check_raw(ctx: &Ctx, id: &str, bytes: &[u8], push_byte: u8, eff_bytes: &[u8], masks: &[u8]) {
+    if !ctx.want(id) {
+        return;
+    }
+    let mut want = 0u8;
+    let mut i = 0;
+    while i < bytes.len() {
+        if bytes[i] == push_byte {
+            i += 9;
+        } else {
+            if let Some(e) = eff_bytes.iter().position(|b| *b == bytes[i]) {
+                want |= flag(&[asm::StateRead::KeyRange.into(), asm::StateRead::KeyRangeExtern.into(), asm::Access::ThisAddress.into(), asm::Access::ThisContractAddress.into(),
+                    asm::StateRead::PostKeyRange.into(), asm::StateRead::PostKeyRangeExtern.into()][e]);
+            }
+            i += 1;
+        }
+    }
+    let r = std::panic::catch_unwind(|| masks.iter().map(|m| (*m, bytes_contains_any(bytes, Effects::from_bits_truncate(*m)))).filter(|(m, got)| *got != (want & m != 0)).collect::<Vec<_>>());
+    match r {
+        Err(_) => ctx.fail(id, "effect analysis never panics", format!("PANIC: bytes_contains_any on bytes {:?}", bytes)),
+        Ok(bad) => match bad.first() {
+            None => ctx.pass(),
+            Some((m, got)) => ctx.fail(id, "bytes_contains_any(bytes, set) is true exactly when some op (not an immediate byte) has an effect in the set",
+                format!("bytes {:?} effect mask {m:#08b}: returned {got} but the opcode bytes outside push immediates have {want:#08b}", bytes)),
+        },
+    }
+}
+
 pub fn run(ctx: &Ctx) {
     let effectful: Vec<Op> = vec![
         asm::StateRead::KeyRange.into(), asm::StateRead::KeyRangeExtern.into(), asm::Access::ThisAddress.into(), asm::Access::ThisContractAddress.into(),
@@ -131,6 +160,35 @@ pub fn run(ctx: &Ctx) {
         check(ctx, &format!("effects/alternating/{e}/none"), &ops, &single);
         ops.extend([Op::from(asm::Stack::Push(1)), asm::Stack::Push(2).into(), asm::Stack::Push(3).into(), effectful[e]]);
         check(ctx, &format!("effects/alternating/{e}/op"), &ops, &single);
+    }
+    // raw byte strings incl. truncated pushes: every string of up to 3 bytes over a 10-byte alphabet, and a Push followed by 0..9 further bytes after
+    // a complete Push whose immediate carries an effect opcode
+    let single_masks = [1u8, 2, 4, 8, 16, 32, 63, 48];
+    let mut alpha: Vec<u8> = eff_bytes.clone();
+    alpha.extend([push_byte, asm::to_bytes([Op::from(asm::Stack::Pop)]).next().unwrap(), 0x00, 0xff]);
+    for a in &alpha {
+        check_raw(ctx, &format!("effects/raw/1/{a}"), &[*a], push_byte, &eff_bytes, &single_masks);
+        for b in &alpha {
+            check_raw(ctx, &format!("effects/raw/2/{a}/{b}"), &[*a, *b], push_byte, &eff_bytes, &single_masks);
+            for c in &alpha {
+                check_raw(ctx, &format!("effects/raw/3/{a}/{b}/{c}"), &[*a, *b, *c], push_byte, &eff_bytes, &single_masks);
+            }
+        }
+    }
+    for e in 0..6 {
+        for pos in 0..8 {
+            for tail_len in 0..=9usize {
+                for tail_byte in [0u8, eff_bytes[(e + 1) % 6], push_byte] {
+                    let mut bytes = vec![push_byte];
+                    let mut imm = [0u8; 8];
+                    imm[pos] = eff_bytes[e];
+                    bytes.extend(imm);
+                    bytes.push(push_byte);
+                    bytes.extend(std::iter::repeat(tail_byte).take(tail_len));
+                    check_raw(ctx, &format!("effects/raw/truncated/{e}/{pos}/{tail_len}/{tail_byte}"), &bytes, push_byte, &eff_bytes, &single_masks);
+                }
+            }
+        }
     }
     // all six, in every rotation, followed by more ops
     for r in 0..6 {
